@@ -13,6 +13,7 @@ def run_prop(pid, tier, seed, facts=None, facts_path=None):
         facts = mirlib.Facts(facts_path)
     ctx = core.Ctx(pid, facts, tier, seed, facts_path or '')
     spec = props.PROPS[pid]
+    ctx.skip_rules = set(spec.get('skip_rules', ()))
     for rule in spec['rules']:
         ctx.guarded(rule.__name__, rule.__module__, lambda: rule(ctx))
     extra = {}
